@@ -1,6 +1,7 @@
 package main
 
 import (
+	"math/big"
 	"strconv"
 	"strings"
 )
@@ -165,6 +166,29 @@ func intSpecials() []string {
 	return out
 }
 
+// powerBoundaries: every power of two and of ten with its two neighbours, both
+// signs, up to 2^64+1 / 10^20+1 (so also the first values beyond int64 and
+// beyond uint64).
+func powerBoundaries() []string {
+	var out []string
+	add := func(v *big.Int) {
+		for _, d := range []int64{-1, 0, 1} {
+			x := new(big.Int).Add(v, big.NewInt(d))
+			out = append(out, x.String())
+			if x.Sign() != 0 {
+				out = append(out, new(big.Int).Neg(x).String())
+			}
+		}
+	}
+	for k := 1; k <= 64; k++ {
+		add(new(big.Int).Lsh(big.NewInt(1), uint(k)))
+	}
+	for k := 1; k <= 20; k++ {
+		add(new(big.Int).Exp(big.NewInt(10), big.NewInt(int64(k)), nil))
+	}
+	return cat(out)
+}
+
 // a few of them for the product spaces of arity >= 2
 var intSpecialsFew = []string{
 	"2147483647", "2147483648", "-2147483648", "-2147483649", "4294967296",
@@ -290,6 +314,16 @@ func families() []family {
 			desc: func(quick bool) string {
 				r := boundsFor(quick).unaryInt
 				return "arity 1 over integers [-" + strconv.Itoa(r) + "," + strconv.Itoa(r) + "] + ~190 boundary integers + unit boundaries (1000^k, 1024^k, their neighbours and rounding edges) + uint64 values >= 2^63 + 18 non-integer texts"
+			},
+		},
+		{
+			name: "power-boundaries", fns: []string{"hi", "hf", "bytesize", "bytesizesi", "downscale", "percent", "expbucket", "isint", "isnum", "floor", "ceil", "round", "log2", "log10", "sqrt"},
+			gen: func(quick bool, P func(pools ...[]string)) {
+				P(powerBoundaries())
+				P(powerBoundaries(), []string{"0", "1", "2"})
+			},
+			desc: func(quick bool) string {
+				return "arity 1 and arity 2 (second argument {0,1,2}) over +-(2^k-1, 2^k, 2^k+1) for every k = 1..64 and +-(10^k-1, 10^k, 10^k+1) for every k = 1..20 (beyond int64/uint64 included)"
 			},
 		},
 		{
